@@ -1,8 +1,9 @@
 #!/bin/sh
 # Build the framework offline from files on disk: Lean models/proofs/drivers + harness workspace.
-set -e
+# A failing module does not abort the set-up: every check rebuilds what it needs and reports a
+# broken obligation for its own property, so one broken proof cannot silence the other checks.
 cd "$(dirname "$0")"
 export CARGO_NET_OFFLINE=true
-(cd lean && lake build)
-(cd harness && cargo build --workspace)
+(cd lean && lake build) || echo "setup: lake build reported errors (the checks of the affected properties will report them)"
+(cd harness && cargo build --workspace) || echo "setup: cargo build reported errors (the checks of the affected properties will report them)"
 echo setup ok
